@@ -6,6 +6,7 @@ use crate::prng::Rng;
 pub mod net;
 pub mod pipe;
 pub mod tour;
+pub mod trans;
 
 pub fn header(name: &str, scope: &str, seed: u64, k: u64, tier: &str) -> String {
     format!("CASE {} {} {} {} {}\n", name, scope, seed, k, tier)
@@ -27,6 +28,17 @@ pub fn generate(scope: &str, name: &str, seed: u64, k: u64, rng: &mut Rng, tier:
             };
             let inst = gen_instance(rng, &p);
             head + &pipe::run(&inst, &workdir(), name, tier)
+        }
+        "trans" => {
+            let p = if rng.chance(50) { Profile::maint_heavy() } else { Profile::small() };
+            let inst = gen_instance(rng, &p);
+            match load_or_report(inst) {
+                Err(s) => head + &s,
+                Ok(ctx) => {
+                    let n = if tier == "thorough" { rng.range(10, 60) } else { rng.range(5, 25) };
+                    head + &ctx.inst.to_text() + &trans::generate(&ctx, rng, n)
+                }
+            }
         }
         "tour" => {
             let p = Profile::small();
@@ -54,6 +66,10 @@ pub fn rerun(text: &str) -> String {
     match scope {
         "net" => head + &net::run(inst),
         "pipe" => head + &pipe::run(&inst, &workdir(), t[1], t.get(5).copied().unwrap_or("quick")),
+        "trans" => match load_or_report(inst) {
+            Err(s) => head + &s,
+            Ok(ctx) => head + &ctx.inst.to_text() + &trans::rerun(&ctx, text),
+        },
         "tour" => match load_or_report(inst) {
             Err(s) => head + &s,
             Ok(ctx) => head + &ctx.inst.to_text() + &tour::rerun(&ctx, text),
